@@ -444,6 +444,18 @@ impl PacketTrait for SecretSubkey {
 }
 
 impl SecretKey {
+    /// The secret key material changed size (locked / unlocked): keep the length stored in the
+    /// packet header in sync with the body, like the other packet mutators do.
+    fn update_packet_header_len(&mut self) -> Result<()> {
+        let len = crate::ser::Serialize::write_len(self).try_into()?;
+        if let crate::types::PacketLength::Fixed(packet_len) =
+            self.packet_header.packet_length_mut()
+        {
+            *packet_len = len;
+        }
+        Ok(())
+    }
+
     /// Remove the password protection of the private key material in this secret key packet.
     /// This permanently "unlocks" the secret key material.
     ///
@@ -454,6 +466,7 @@ impl SecretKey {
         if let SecretParams::Encrypted(enc) = &self.secret_params {
             let unlocked = enc.unlock(password, &self.details, Some(self.packet_header.tag()))?;
             self.secret_params = SecretParams::Plain(unlocked);
+            self.update_packet_header_len()?;
         }
 
         Ok(())
@@ -499,12 +512,25 @@ impl SecretKey {
             &self.details,
             Some(self.packet_header.tag()),
         )?);
+        self.update_packet_header_len()?;
 
         Ok(())
     }
 }
 
 impl SecretSubkey {
+    /// The secret key material changed size (locked / unlocked): keep the length stored in the
+    /// packet header in sync with the body, like the other packet mutators do.
+    fn update_packet_header_len(&mut self) -> Result<()> {
+        let len = crate::ser::Serialize::write_len(self).try_into()?;
+        if let crate::types::PacketLength::Fixed(packet_len) =
+            self.packet_header.packet_length_mut()
+        {
+            *packet_len = len;
+        }
+        Ok(())
+    }
+
     /// Remove the password protection of the private key material in this secret key packet.
     /// This permanently "unlocks" the secret key material.
     ///
@@ -515,6 +541,7 @@ impl SecretSubkey {
         if let SecretParams::Encrypted(enc) = &self.secret_params {
             let unlocked = enc.unlock(password, &self.details, Some(self.packet_header.tag()))?;
             self.secret_params = SecretParams::Plain(unlocked);
+            self.update_packet_header_len()?;
         }
 
         Ok(())
@@ -558,6 +585,7 @@ impl SecretSubkey {
             &self.details,
             Some(self.packet_header.tag()),
         )?);
+        self.update_packet_header_len()?;
 
         Ok(())
     }
